@@ -67,20 +67,12 @@ structure SSpec where
 outer list = per edge (or one element for all edges), inner list = the callbacks of that edge -/
 abbrev OArg := Option (List (List Nat))
 
-/-- one element of the `source` / `dest` selector of `remove_transition`: the state it names and
-whether it is given as a string.  The comprehension compares `t.source` / `t.dest` (strings) with the
-element itself, so an Enum member or a `State` object equals no transition (`str = false`). -/
-structure Sel where
-  name : Nat
-  str : Bool := true
-  deriving DecidableEq, Repr, Inhabited
-
 inductive Op
   | addStates (l : List SSpec) (callIgn : Option Bool)
   | addTransition (ev : Nat) (src : Src) (dst : Dst) (cb : CbSpec)
   | addOrdered (ev : Nat) (states : Option (List Nat)) (loop inclInit : Bool)
       (conditions unlss before after prepare : OArg)
-  | remove (ev : Nat) (src dst : Option (List Sel))     -- `none` = `'*'`
+  | remove (ev : Nat) (src dst : Option (List Nat))     -- `none` = `'*'`; names, Enum members or State objects
   | setInitial (s : Nat)
   deriving Repr, Inhabited
 
@@ -214,16 +206,15 @@ def B.addOrdered (F : Filter) (b : B) (ev : Nat) (states : Option (List Nat)) (l
   | none => none
   | some cbs => some (b.addEdges F ev ((orderedEdges b.init sts loop inclInit).zip cbs))
 
-/-- the keep-predicate of the comprehension in `remove_transition` -/
-def selHas (l : List Sel) (n : Nat) : Bool := l.any fun x => x.str && x.name == n
-
-def keepT (src dst : Option (List Sel)) (t : Trans) : Bool :=
+/-- the keep-predicate of the comprehension in `remove_transition` (selectors are normalised to the
+names they stand for: `s.name if hasattr(s, 'name') else s`) -/
+def keepT (src dst : Option (List Nat)) (t : Trans) : Bool :=
   (match src with
-    | some l => !selHas l t.source
+    | some l => !l.contains t.source
     | none => false) ||
   (match dst with
     | some l => (match t.dest with
-      | some d => !selHas l d
+      | some d => !l.contains d
       | none => true)
     | none => false)
 
@@ -236,7 +227,7 @@ def delKey (ev : Nat) (evs : List (Nat × List Trans)) : List (Nat × List Trans
   evs.filter fun e => e.1 != ev
 
 /-- `Machine.remove_transition`; `none` = KeyError (unknown trigger) -/
-def B.remove (b : B) (ev : Nat) (src dst : Option (List Sel)) : Option B :=
+def B.remove (b : B) (ev : Nat) (src dst : Option (List Nat)) : Option B :=
   match alookup ev b.cfg.events with
   | none => none
   | some l =>
